@@ -24,6 +24,7 @@ def assume_cmp(field_adt, field, op, const, truth):
 
 
 def K1(ctx):
+    """Every iteration of Builder::check runs the leak scan between scheduler.run and execution.step."""
     prog = ctx.prog
     fk = "model::Builder::check"
     root = prog.ident(fk)
@@ -67,6 +68,7 @@ def K1(ctx):
 
 
 def K2(ctx):
+    """The leak scan dispatches to every object kind defining check_for_leaks and iterates over all entries."""
     n = g_dpor.dispatch_exhaustive(ctx, "K2", "check_for_leaks", "check_for_leaks")
     ctx.floor("K2", n, 3, "Alloc, Arc, Channel")
     # and the scan covers all entries
@@ -90,6 +92,7 @@ K3_ROWS = [
 
 
 def K3(ctx):
+    """Leak predicates and documented messages: Arc leaked iff ref_cnt != 0, Allocation leaked iff !is_dropped, Messages leaked iff msg_cnt != 0."""
     prog = ctx.prog
     for (fk, text, (adt, field, op, const)) in K3_ROWS:
         fn = need_fn(ctx, "K3", fk)
@@ -118,6 +121,7 @@ def K3(ctx):
 
 
 def K4_refcnt(ctx):
+    """Writers of the Arc reference count: 1 at creation, checked_add(1) in ref_inc, -1 in ref_dec."""
     prog = ctx.prog
     adt, field = "rt::arc::State", "ref_cnt"
     allowed = {"rt::arc::Arc::new": "init", "rt::arc::Arc::ref_inc": "inc", "rt::arc::Arc::ref_dec": "dec"}
@@ -152,6 +156,7 @@ def K4_refcnt(ctx):
 
 
 def K4_alloc(ctx):
+    """Writers of Allocation.is_dropped and of the raw-allocation registry; rt bookkeeping paired with the std alloc/dealloc call."""
     prog = ctx.prog
     adt, field = "rt::alloc::State", "is_dropped"
     n = 0
@@ -202,6 +207,7 @@ def K4_alloc(ctx):
 
 
 def K5(ctx):
+    """Lazy statics are taken inside the execution, destroyed outside any execution borrow, before the main thread finishes."""
     prog = ctx.prog
     ck = "model::Builder::check::{closure#0}"
     root = prog.ident(ck)
